@@ -203,10 +203,27 @@ def ops_request(ops):
     return parts
 
 
+_RUNS = [0]
+
+
 def run_real(cls, ops, observer=None):
-    """drive the real Executor; -> list of canonical outputs (same encoding as the driver's encOut)"""
+    """drive the real Executor; -> list of canonical outputs (same encoding as the driver's encOut).
+    Every second run the caller's Cell objects are REUSED: a small pool of Cell objects is re-pointed (numeric coordinates) and passed again, as a caller
+    walking down a column with one object would do - what was passed earlier must not change with it."""
     m = realcode.mods()
-    Cell = m['Cell']
+    RealCell = m['Cell']
+    _RUNS[0] += 1
+    reuse = _RUNS[0] % 2 == 0
+    pool = [RealCell(0, 0, 0) for _ in range(6)]
+    turn = [0]
+
+    def Cell(title, column, row, value=None):
+        if not reuse or not all(type(x) is int for x in (title, column, row)):
+            return RealCell(title, column, row, value)
+        c = pool[turn[0] % len(pool)]
+        turn[0] += 1
+        c.title, c.column, c.row, c.value = title, column, row, value
+        return c
     ex = realcode.executor_for(cls)
     outs = []
     for i, op in enumerate(ops):
